@@ -404,26 +404,26 @@ Definition validation_clean_stmt : Prop :=
 (* parsing the printed grammar yields its AST, whatever the layout; the errors are
    exactly those of validating that AST *)
 Definition yacc_parse_roundtrip_stmt : Prop :=
-  forall k fa fp l ag, wf_agram k ag -> wf_layout l ag ->
+  forall k fa fp fu l ag, wf_agram k ag -> wf_layout l ag ->
     exists v,
       complete_and_validate (ast_of fa fp l ag) = Done v /\
-      run_case true fa fp k (print l ag)
-      = Done (TResult (ast_of fa fp l ag) (match v with Some e => [e] | None => [] end) (warnings_of fa fp l ag)).
+      run_case true fa fp fu k (print l ag)
+      = Done (TResult (ast_of fa fp l ag) (match v with Some e => [e] | None => [] end) (warnings_of fa fp fu l ag)).
 
 Definition yacc_roundtrip_stmt : Prop :=
-  forall k fa fp l ag, wf_agram k ag -> wf_layout l ag ->
-    run_case true fa fp k (print l ag) = Done (TResult (ast_of fa fp l ag) [] (warnings_of fa fp l ag)).
+  forall k fa fp fu l ag, wf_agram k ag -> wf_layout l ag ->
+    run_case true fa fp fu k (print l ag) = Done (TResult (ast_of fa fp l ag) [] (warnings_of fa fp fu l ag)).
 
 (* the three dialects, by name *)
 Definition yacc_roundtrip_original_stmt : Prop :=
-  forall fa fp l ag, wf_agram KOriginal ag -> wf_layout l ag ->
-    run_case true fa fp KOriginal (print l ag) = Done (TResult (ast_of fa fp l ag) [] (warnings_of fa fp l ag)).
+  forall fa fp fu l ag, wf_agram KOriginal ag -> wf_layout l ag ->
+    run_case true fa fp fu KOriginal (print l ag) = Done (TResult (ast_of fa fp l ag) [] (warnings_of fa fp fu l ag)).
 Definition yacc_roundtrip_grmtools_stmt : Prop :=
-  forall fa fp l ag, wf_agram KGrmtools ag -> wf_layout l ag ->
-    run_case true fa fp KGrmtools (print l ag) = Done (TResult (ast_of fa fp l ag) [] (warnings_of fa fp l ag)).
+  forall fa fp fu l ag, wf_agram KGrmtools ag -> wf_layout l ag ->
+    run_case true fa fp fu KGrmtools (print l ag) = Done (TResult (ast_of fa fp l ag) [] (warnings_of fa fp fu l ag)).
 Definition yacc_roundtrip_eco_stmt : Prop :=
-  forall fa fp l ag, wf_agram KEco ag -> wf_layout l ag ->
-    run_case true fa fp KEco (print l ag) = Done (TResult (ast_of fa fp l ag) [] (warnings_of fa fp l ag)).
+  forall fa fp fu l ag, wf_agram KEco ag -> wf_layout l ag ->
+    run_case true fa fp fu KEco (print l ag) = Done (TResult (ast_of fa fp l ag) [] (warnings_of fa fp fu l ag)).
 
 (* ---- what the denoted AST contains: the abstract grammar, nothing else ----------- *)
 Definition erase_sym (s : symbol) : asym :=
